@@ -55,6 +55,7 @@ class Phi:
     test: str
     a: Any
     b: Any
+    cond: Any = None  # abstract value of the selecting mask, when the Phi comes from a masked store
 
     def __repr__(self) -> str:
         return f"Phi({self.test} ? {self.a} : {self.b})"
@@ -93,10 +94,10 @@ class Domain:
     def call(self, fname: str, args: list, kwargs: dict, node, interp):
         return NotImplemented
 
-    def join(self, test: str, a, b):
+    def join(self, test: str, a, b, cond=None):
         if _same(a, b):
             return a
-        return Phi(test, a, b)
+        return Phi(test, a, b, cond)
 
     def where(self, mask, new, old, node):
         return Phi("mask:" + str(mask), new, old)
@@ -204,14 +205,14 @@ class Interp:
             val = self._join(test or "?", v, val)
         return val
 
-    def _join(self, test: str, a, b):
+    def _join(self, test: str, a, b, cond=None):
         if isinstance(a, Tup) and isinstance(b, Tup) and len(a.items) == len(b.items):
-            return Tup([self._join(test, x, y) for x, y in zip(a.items, b.items)])
+            return Tup([self._join(test, x, y, cond) for x, y in zip(a.items, b.items)])
         if _same(a, b):
             return a
         if self.dom.is_value(a) and self.dom.is_value(b):
-            return self.dom.join(test, a, b)
-        return Phi(test, a, b)
+            return self.dom.join(test, a, b, cond)
+        return Phi(test, a, b, cond)
 
     # ------------------------------------------------------------------
     # statements
@@ -635,13 +636,13 @@ class Interp:
         if isinstance(a, Phi) or isinstance(b, Phi):
             # distribute over a two-armed value
             if isinstance(a, Phi):
-                return self._join(a.test, self._binop(op, a.a, b, node), self._binop(op, a.b, b, node))
-            return self._join(b.test, self._binop(op, a, b.a, node), self._binop(op, a, b.b, node))
+                return self._join(a.test, self._binop(op, a.a, b, node), self._binop(op, a.b, b, node), a.cond)
+            return self._join(b.test, self._binop(op, a, b.a, node), self._binop(op, a, b.b, node), b.cond)
         return self.dom.binop(op, self.num(a), self.num(b), node)
 
     def _unop(self, op, a, node):
         if isinstance(a, Phi):
-            return self._join(a.test, self._unop(op, a.a, node), self._unop(op, a.b, node))
+            return self._join(a.test, self._unop(op, a.a, node), self._unop(op, a.b, node), a.cond)
         return self.dom.unop(op, self.num(a), node)
 
     def eval_attr(self, node: ast.Attribute, fr: Frame):
@@ -799,7 +800,7 @@ class Interp:
                 rb = self._dom_call(fname, args[:i] + [a.b] + args[i + 1 :], kwargs, node)
                 if ra is NotImplemented or rb is NotImplemented:
                     return NotImplemented
-                return self._join(a.test, ra, rb)
+                return self._join(a.test, ra, rb, a.cond)
         return self.dom.call(fname, args, kwargs, node, self)
 
     def inline(self, callee: FuncInfo, node: ast.Call, fr: Frame, recv_path: Optional[str]):
